@@ -89,7 +89,10 @@ inductive Step where
   | push                         -- the application thread: PushService.push_snapshot, all of it at once
   | pushBegin                    -- … or in its regions: check + id + pool.submit (the task can run from here on)
   | pushStore (id : Int)         --   then `_pending[id] = future` and the done-callback (run at once if already done)
-  | pushRejected                 -- push_snapshot while the executor refuses new work (`pool.submit` raises RuntimeError)
+  | pushRejected                 -- push_snapshot while the executor refuses new work BEFORE queueing it (`pool.submit`
+                                 --   raises "cannot schedule new futures after (interpreter) shutdown")
+  | pushQueuedRaised             -- `pool.submit` queues the work item and THEN raises (a worker thread cannot be
+                                 --   started: "can't start new thread"): the caller is refused, the task can run
   | flushTimeout                 -- `future.result(10)` gives up on the task flush is waiting for (TimeoutError)
   | start (id : Int) (w : Nat)   -- worker `w` takes task `id` off the queue
   | finish (id : Int)            -- the body ends (as `f id` says)
@@ -159,8 +162,16 @@ def pushRejected (s : St) : St :=
   let s := { s with callerRuns := s.callerRuns + pushInlineCalls }
   if pushViaSubmit then { s with th := (submitRejected s.th).1, refused := s.refused + 1 } else s
 
+/-- `push_snapshot` when `ThreadPoolExecutor.submit` has put the work item on its queue and then raises (`Thread.start`
+    fails).  The statements of `submit_task` up to and including `pool.submit` have had their effect (`pushBegin`), none
+    after it ever runs: the task is never stored in the pending map, no done-callback is attached (it stays in `storing`
+    for good), and the exception goes to the caller of `push_snapshot`. -/
+def pushQueuedRaised (s : St) : St :=
+  if s.th.isOpen then { pushBegin s with refused := (pushBegin s).refused + 1 } else pushBegin s
+
 def step (f : Int → Outcome) (s : St) : Step → St
   | .push => push s
+  | .pushQueuedRaised => pushQueuedRaised s
   | .pushRejected => pushRejected s
   | .pushBegin => pushBegin s
   | .pushStore id =>
